@@ -548,10 +548,11 @@ Lemma src_facts_lemma :
   lock_balanced = true /\ no_foreign_call_under_lock = true /\ store_sites_only_loaders = true /\
   entry_keyed = true /\ init_double_checked = true /\ init_flag_store_last = true /\
   init_unlock_deferred = true /\ inited_writers_ok = true /\
-  pool_put_after_last_use = true /\ 4 <= pool_put_sites /\ find_cmp_lt = true /\ find_final_eq = true /\
+  pool_put_after_last_use = true /\ 4 <= pool_put_sites /\
+  naked_templates_copied = true /\ 7 <= naked_template_uses /\ side_coder_reset_first = true /\ 10 <= side_coder_sites /\ find_cmp_lt = true /\ find_final_eq = true /\
   3 <= loaders_checked /\ loaders_checked = finders_checked /\
   find_shift = 1 /\ find_lo_inc = 1 /\ ins_len_inc = 1 /\ ins_hi_dst = 1 /\ ins_hi_src = 0 /\ ins_lo_dst = 0 /\ ins_set = 0.
-Proof. vm_compute. repeat apply conj; try reflexivity. repeat constructor. Qed.
+Proof. repeat apply conj; try reflexivity; apply Nat.leb_le; reflexivity. Qed.
 
 Lemma run_reachable F sched : forall σ σ', reachable F σ -> run F σ sched = Some σ' -> reachable F σ'.
 Proof.
@@ -587,4 +588,68 @@ Proof.
   destruct (run F0' (init_state) sched1') as [σ|] eqn:E; [|vm_compute in E; discriminate].
   exists σ. split; [eapply run_reachable; [apply reach_init|exact E]|].
   vm_compute in E. injection E as <-. vm_compute. split; reflexivity.
+Qed.
+
+(* ------------------------------------------------------------------ *)
+(* pooled objects with state: a user that resets first never sees another thread's leftovers *)
+Definition qinv (s : qstate) : Prop :=
+  forall o, qready s o = true ->
+    exists t, qowner s o = Some t /\ (qtaint s o = None \/ qtaint s o = Some t).
+
+Lemma owned_by_spec s o t : owned_by s o t = true <-> qowner s o = Some t.
+Proof.
+  unfold owned_by. destruct (qowner s o) as [t'|]; [|split; discriminate].
+  rewrite Nat.eqb_eq. split; [intros ->; reflexivity|intros [= ->]; reflexivity].
+Qed.
+
+Lemma qinv_step s s' t ch : qinv s -> qstep s t ch = Some s' -> qinv s'.
+Proof.
+  intros I H.
+  assert (Frame : forall o o' (ow : option nat) (b : bool) tn, o' <> o ->
+            upd (qready s) o b o' = true ->
+            exists t0, upd (qowner s) o ow o' = Some t0 /\ (upd (qtaint s) o tn o' = None \/ upd (qtaint s) o tn o' = Some t0)).
+  { intros o o' ow b tn Hne Hr. rewrite upd_neq in Hr by auto. rewrite !upd_neq by auto. apply I; exact Hr. }
+  destruct ch as [o| |o|o|o]; simpl in H.
+  - destruct ((o <? qnext s) && _) eqn:E; [|discriminate]. injection H as <-. intros o' Hr. simpl in *.
+    destruct (Nat.eq_dec o' o) as [->|Hne]; [rewrite upd_eq in Hr; discriminate|].
+    destruct (Frame o o' (Some t) false (qtaint s o) Hne Hr) as (t0 & A & B). exists t0. rewrite upd_neq in B by auto. auto.
+  - injection H as <-. intros o' Hr. simpl in *.
+    destruct (Nat.eq_dec o' (qnext s)) as [->|Hne]; [rewrite upd_eq in Hr; discriminate|].
+    apply (Frame (qnext s) o' (Some t) false None Hne Hr).
+  - destruct (owned_by s o t) eqn:E; [|discriminate]. injection H as <-. apply owned_by_spec in E. intros o' Hr. simpl in *.
+    destruct (Nat.eq_dec o' o) as [->|Hne]; [rewrite upd_eq; exists t; auto|].
+    destruct (Frame o o' (qowner s o) true None Hne Hr) as (t0 & A & B). exists t0. rewrite upd_neq in A by auto. auto.
+  - destruct (owned_by s o t && qready s o) eqn:E; [|discriminate]. injection H as <-. apply andb_prop in E. destruct E as (E1 & E2).
+    apply owned_by_spec in E1. intros o' Hr. simpl in *.
+    destruct (Nat.eq_dec o' o) as [->|Hne]; [rewrite upd_eq; exists t; auto|].
+    rewrite upd_neq by auto. apply I; auto.
+  - destruct (owned_by s o t) eqn:E; [|discriminate]. injection H as <-. intros o' Hr. simpl in *.
+    destruct (Nat.eq_dec o' o) as [->|Hne]; [rewrite upd_eq in Hr; discriminate|].
+    destruct (Frame o o' None false (qtaint s o) Hne Hr) as (t0 & A & B). exists t0. rewrite upd_neq in B by auto. auto.
+Qed.
+
+Lemma pool_state_lemma s : qreachable s -> forall t o s',
+  qstep s t (QUse o) = Some s' -> qowner s o = Some t /\ (qtaint s o = None \/ qtaint s o = Some t).
+Proof.
+  intros R. assert (I : qinv s).
+  { induction R; [intros o H; discriminate|eapply qinv_step; eauto]. }
+  intros t o s' H. simpl in H. destruct (owned_by s o t && qready s o) eqn:E; [|discriminate].
+  apply andb_prop in E. destruct E as (E1 & E2). apply owned_by_spec in E1.
+  destruct (I o E2) as (t' & Ho & Ht). rewrite E1 in Ho. injection Ho as <-. auto.
+Qed.
+
+Lemma qrun_reachable sched : forall s s', qreachable s -> qrun s sched = Some s' -> qreachable s'.
+Proof.
+  induction sched as [|[t ch] r IH]; simpl; intros s s' R H.
+  - injection H as <-. exact R.
+  - destruct (qstep s t ch) as [s1|] eqn:E; [|discriminate]. eapply IH; [|exact H]. eapply qreach_step; eauto.
+Qed.
+
+(* without the reset a user WOULD see leftovers: thread 1 holds an object still carrying thread 0's state *)
+Lemma pool_leftover_lemma :
+  exists s, qreachable s /\ qowner s 0 = Some 1 /\ qtaint s 0 = Some 0 /\ qready s 0 = false.
+Proof.
+  destruct (qrun qinit [(0, QGetNew); (0, QReset 0); (0, QUse 0); (0, QPut 0); (1, QGet 0)]) as [s|] eqn:E; [|vm_compute in E; discriminate].
+  exists s. split; [eapply qrun_reachable; [apply qreach_init|exact E]|].
+  vm_compute in E. injection E as <-. vm_compute. repeat apply conj; reflexivity.
 Qed.
